@@ -262,6 +262,25 @@ fn check_word(
             _ => None,
         };
         let t_prev = prev_glyph.map(|c| (ctx.has_rule)(Some(c), Some(w.letters[0]))).unwrap_or(false);
+        // TeX quirk: an implicit kern separates the word from a preceding same-font character that
+        // has a rule with the first letter (e.g. `.b -> .^c_` then `.c -> .[7]c`: `. kern lig(c<-b)`).
+        // TeX's `ha` is then the kern, no left context is used (§903 "no punctuation found") and TeX
+        // itself re-translates the word on its own.
+        let t_context_behind_kern = {
+            let mut i = rs;
+            let mut kerns = 0;
+            while i > 0 && matches!(before[i - 1], N::Kern { normal: true, .. }) {
+                i -= 1;
+                kerns += 1;
+            }
+            kerns > 0
+                && match i.checked_sub(1).map(|j| &before[j]) {
+                    Some(N::Char { c, font }) | Some(N::Lig { c, font, .. }) if *font == hf => {
+                        (ctx.has_rule)(Some(*c), Some(w.letters[0]))
+                    }
+                    _ => false,
+                }
+        };
         let t_follower = override_char.map(|c| (ctx.has_lig_rule_with_right)(c)).unwrap_or(false);
         let regen = |left: bool| -> Vec<N> {
             (ctx.runner)(&word, left, override_char).into_iter().map(|n| with_font(n, hf)).collect()
@@ -306,6 +325,8 @@ fn check_word(
                     "note": "word nodes = the word translated on its own; TeX translates it with the preceding character as left context (hu[0])"})),
             ));
             rep.count("known:preceding_character_context_ignored");
+        } else if t_context_behind_kern && (is_on || is_off) {
+            rep.count("excluded_from_(1):TeX_ignores_the_context_before_an_implicit_kern");
         } else if t_follower && (is_on || is_off || is_tex_restart) {
             // TeX itself reconstitutes the word with the following character as right boundary
             // (hyf_bchar, §897/§903) and keeps that character's own node: pinned by the unit tests
